@@ -1551,6 +1551,14 @@ class Model(Object):
             for reaction in existing:
                 reaction.id = f"{prefix_existing}{reaction.id}"
         new_model.add_reactions(new_reactions)
+        # Copies that were ignored (their identifier exists) must not stay
+        # registered with the metabolites and genes that joined the model.
+        for reaction in new_reactions:
+            if new_model.reactions.get_by_id(reaction.id) is not reaction:
+                for metabolite in reaction._metabolites:
+                    metabolite._reaction.discard(reaction)
+                for gene in reaction._genes:
+                    gene._reaction.discard(reaction)
         interface = new_model.problem
         new_vars = [
             interface.Variable.clone(v)
